@@ -6,8 +6,12 @@
     helper.post.only_its_own_column                                    each column's data type gets the frame WITH that column's selector
     helper.post.each_coercion_continues_from_the_previous_result
     helper.post.strict_cast_only_without_data_validation               SCHEMA_ONLY -> dtype.coerce, SCHEMA_AND_DATA / DATA_ONLY -> dtype.try_coerce
-    helper.exit.parser_error_is_reported_as_a_coercion_error_with_its_failure_cases   SchemaErrors carrying ONE SchemaError(DATATYPE_COERCION)
-                                                                        whose failure_cases / check_output are the ParserError's
+    helper.post.each_coercion_continues_from_the_previous_result       (the previous SUCCESSFUL result: a failed cast leaves the frame as it was)
+    helper.exit.every_parser_error_is_reported_as_a_coercion_error_of_its_own_column   C02 / C08: "the lazy report's failure cases name every
+                                                                        offending (column, row label, value)": EVERY coercing column is attempted, also after one has
+                                                                        failed, and SchemaErrors carries one SchemaError(DATATYPE_COERCION) per failed cast, in order,
+                                                                        whose failure_cases / check_output are that ParserError's and whose `schema` is the column (the
+                                                                        report's `column` is read from it) - as the pandas back end reports them
     coerce_dtype.post.no_column_coerces_returns_the_argument / exit.errors_of_the_helper_are_reraised_as_schema_errors
 
 For all coerce / required flags, depths, outcomes of each cast; layouts: 2 declared columns present or absent; with / without a
@@ -35,7 +39,8 @@ class Dt:
 
     def _do(self, which, data):
         p = cur()
-        p.ghost.setdefault("casts", []).append((self.tag, which, data))
+        entry = [self.tag, which, data, None]
+        p.ghost.setdefault("casts", []).append(entry)
         if isinstance(data, Obj) and data.attrs.get("key") is not None and data.attrs.get("key") not in p.ghost["names"]:
             raise PyExc(self.I.make_exc(OtherException))  # casting a column the frame does not have: polars ColumnNotFoundError
         k = p.choose([("returns", None), ("ParserError", None)], f"{self.tag}.{which}")
@@ -44,10 +49,10 @@ class Dt:
             e.attrs["failure_cases"] = SAny(name="uncoercible_values")
             e.attrs["parser_output"] = SAny(name="parser_output")
             e.attrs["args"] = (SAny(name="message"),)
-            p.ghost["parser_error"] = e
+            p.ghost.setdefault("parser_errors", []).append((self.tag, e))
             raise PyExc(e)
         r = Names(p.ghost["names"], f"coerced[{self.tag}]")
-        p.ghost.setdefault("results", []).append(r)
+        entry[3] = r
         return r
 
     def coerce(self, data):
@@ -138,24 +143,23 @@ class PolarsCoerceHelper(Contract):
         want = self._expected(schema)
         out = {}
         tags = [c[0] for c in casts]
-        out["each_coercing_column_is_coerced_once_in_schema_order"] = (tags == want) if complete else (tags == want[: len(tags)] and len(tags) >= 1)
+        out["each_coercing_column_is_coerced_once_in_schema_order"] = tags == want  # (whether or not an earlier column failed)
         depth = self._depth()
         # documented rule (comment in the helper, docs/polars.md): data-validating depths use try_coerce (values are checked), SCHEMA_ONLY
         # the lazy strict cast.  The API level always sets the depth before it calls the back end; an unset depth is left unconstrained.
         if depth is not None:
             strict_only = depth is ValidationDepth.SCHEMA_ONLY
-            out["strict_cast_only_without_data_validation"] = all((which == "coerce") == strict_only for _, which, _ in casts)
+            out["strict_cast_only_without_data_validation"] = all((which == "coerce") == strict_only for _, which, _, _ in casts)
         prev = obj
         ok_chain, ok_key = True, True
-        res = list(g.get("results", []))
-        for n, (tag, which, data) in enumerate(casts):
+        for n, (tag, which, data, res) in enumerate(casts):
             if tag == "frame":
                 ok_chain = ok_chain and data is prev
             else:
                 ok_key = ok_key and isinstance(data, Obj) and data.cls is PolarsData and data.attrs.get("key") == tag
                 ok_chain = ok_chain and isinstance(data, Obj) and data.attrs.get("lazyframe") is prev
-            if n < len(res):
-                prev = res[n]
+            if res is not None:
+                prev = res
         out["only_its_own_column"] = ok_key
         out["each_coercion_continues_from_the_previous_result"] = ok_chain
         return out, prev
@@ -163,6 +167,7 @@ class PolarsCoerceHelper(Contract):
     def ensures(self, result, old, self_, obj, schema):
         out, last = self._cast_posts(obj, schema, True)
         out["returns_the_last_coerced_frame"] = result is last
+        out["a_failed_coercion_is_not_passed_over"] = not cur().ghost.get("parser_errors")
         return out
 
     def concretize(self, rec):
@@ -189,20 +194,46 @@ class PolarsCoerceHelper(Contract):
                     if got != "SchemaError(s) COLUMN_NOT_IN_DATAFRAME":
                         bad = True
                         obs[f"{name}, required column y absent, lazy={lazy}"] = got
-            return bad, obs or "an absent required column under coercion is reported as COLUMN_NOT_IN_DATAFRAME"
+            # C02 / C08: every uncoercible value is named under its own column, as on pandas
+            import pandas as pd
+
+            from pandera.config import config_context
+
+            cells = {}
+            for lib, mod, mk in (("polars", pp, pl.DataFrame), ("pandas", pa, pd.DataFrame)):
+                schema = mod.DataFrameSchema({"a": mod.Column(int), "b": mod.Column(int)}, coerce=True)
+                try:
+                    with config_context(validation_depth=ValidationDepth.SCHEMA_AND_DATA):
+                        schema.validate(mk({"a": ["1", "x"], "b": ["y", "2"]}), lazy=True)
+                    cells[lib] = "accepted"
+                except pa.errors.SchemaErrors as e:
+                    fc = e.failure_cases if lib == "pandas" else e.failure_cases.to_pandas()
+                    fc = fc[fc["check"].astype(str).str.startswith("coerce_dtype")]
+                    cells[lib] = sorted((str(c), int(i), str(v)) for c, i, v in zip(fc["column"], fc["index"], fc["failure_case"]))
+                except Exception as e:  # noqa: BLE001
+                    cells[lib] = "leaked " + type(e).__name__
+            want = [("a", 1, "x"), ("b", 0, "y")]
+            if cells["polars"] != want:
+                bad = True
+                obs["a=['1','x'], b=['y','2'] coerced to int, lazy: uncoercible cells reported"] = {**cells, "expected": want}
+            return bad, obs or "an absent required column under coercion is reported as COLUMN_NOT_IN_DATAFRAME; every uncoercible cell is named under its column"
 
         return thunk
 
     def on_raise(self, exc, old, self_, obj, schema):
         if exc.cls is not SchemaErrors:
             return {}  # (reported by exit.only_documented_exceptions)
-        pe = cur().ghost.get("parser_error")
+        pes = cur().ghost.get("parser_errors", [])
         out, _ = self._cast_posts(obj, schema, False)
         errs = exc.attrs.get("schema_errors")
-        one = isinstance(errs, (list, ListObj)) and len(errs) == 1 and isinstance(errs[0], Obj) and errs[0].cls is SchemaError
-        out["parser_error_is_reported_as_a_coercion_error_with_its_failure_cases"] = bool(
-            pe is not None and one and errs[0].attrs.get("reason_code") is SchemaErrorReason.DATATYPE_COERCION
-            and errs[0].attrs.get("failure_cases") is pe.attrs["failure_cases"] and errs[0].attrs.get("check_output") is pe.attrs["parser_output"])
+        ok = isinstance(errs, (list, ListObj)) and len(errs) == len(pes) >= 1
+        if ok:
+            for (tag, pe), err in zip(pes, errs):
+                ctx = schema if tag == "frame" else cur().ghost["meta"][tag]
+                ok = ok and bool(isinstance(err, Obj) and err.cls is SchemaError and err.attrs.get("reason_code") is SchemaErrorReason.DATATYPE_COERCION
+                                 and err.attrs.get("failure_cases") is pe.attrs["failure_cases"] and err.attrs.get("check_output") is pe.attrs["parser_output"]
+                                 and err.attrs.get("schema") is ctx)
+        out["every_parser_error_is_reported_as_a_coercion_error_of_its_own_column"] = ok
         return out
 
 
